@@ -381,7 +381,12 @@ from checks import c01
 from checks.c15 import POOL
 n = 0
 for name, text in list(noisy.corpus_texts()) + sorted(POOL.items()):
-    c01.pipeline(text, "en")
+    try:
+        c01.pipeline(text, "en")
+    except Exception:
+        import traceback
+        traceback.print_exc()
+        sys.exit(3)
     n += 1
 print("ok", n)
 """
@@ -393,6 +398,8 @@ def check_mode(case, stats):
     env = dict(os.environ, PYTHONDONTWRITEBYTECODE="1", **case.get("env", {}))
     plain = subprocess.run([sys.executable, "-X", "utf8", "-c", MODE_SCRIPT, os.path.join(REPO, "python"), VERIF], capture_output=True, text=True, timeout=600, cwd=os.getcwd(),
                            env=dict(os.environ, PYTHONDONTWRITEBYTECODE="1"))
+    if plain.returncode == 3:
+        raise Violation(case, "the pipeline lets a foreign exception escape on a document of the corpus: " + plain.stderr[-600:])
     if plain.returncode != 0:
         raise HarnessError("mode script fails in a plain interpreter: " + plain.stderr[-600:])
     r = subprocess.run([sys.executable] + case.get("flags", []) + ["-c", MODE_SCRIPT, os.path.join(REPO, "python"), VERIF], capture_output=True, text=True, timeout=600, cwd=os.getcwd(), env=env)
